@@ -270,6 +270,14 @@ pub fn codec_vectors(out: &mut dyn Write, tier: &str, seed: u64) -> J {
             break;
         }
     }
+    // every character (all of ISO-8859-1 and the first code points beyond it) in every position class
+    for cp in 0u32..=0x180 {
+        if let Some(c) = char::from_u32(cp) {
+            for s in [format!("{}", c), format!("A{}", c), format!("AB.{}", c), format!("{}BCDEFGH.TXT", c), format!("ABCDEFG{}.TX{}", c, c)] {
+                emit(sfn_rec(&s), out, &mut n);
+            }
+        }
+    }
     // structured longer names (up to 13 characters): every base length 0..=9 with every extension length 0..=4
     for bl in 0..=9usize {
         for el in 0..=4usize {
